@@ -51,6 +51,7 @@ type csState struct {
 	ext     bool // previous header carried an extended timestamp
 	extVal  uint32
 	deltaOk bool // delta was established by a format 1/2 header
+	fmt0    bool // the previous message header was format 0 (its timestamp field then doubles as the delta, RTMP spec 5.3.1.2.4)
 }
 
 // Writer is a reference chunk stream encoder. FmtChoice lets the caller force "the most compact legal
@@ -58,7 +59,10 @@ type csState struct {
 type Writer struct {
 	ChunkSize  int
 	AlwaysFmt0 bool
-	cs         map[int]*csState
+	// Fmt3AfterFmt0 lets the encoder start a message with a format-3 chunk right after a format-0 message when
+	// the new timestamp is exactly twice the previous one (the spec's rule for the implied delta)
+	Fmt3AfterFmt0 bool
+	cs            map[int]*csState
 }
 
 func NewWriter() *Writer { return &Writer{ChunkSize: 128, cs: map[int]*csState{}} }
@@ -97,6 +101,11 @@ func (w *Writer) Encode(m Msg) []byte {
 			if st.delta == delta && st.deltaOk {
 				fmtv = 3
 			}
+			// "If a Type 3 chunk follows a Type 0 chunk, then the timestamp delta for this Type 3 chunk is the same
+			// as the timestamp of the Type 0 chunk."
+			if st.fmt0 && !st.ext && st.ts == delta && w.Fmt3AfterFmt0 {
+				fmtv = 3
+			}
 		}
 		st.delta = delta
 		st.deltaOk = true
@@ -105,6 +114,7 @@ func (w *Writer) Encode(m Msg) []byte {
 		st.delta = 0
 	}
 	out := w.header(fmtv, m, tsField, st)
+	st.fmt0 = fmtv == 0
 	// payload in chunks
 	cs := w.ChunkSize
 	p := m.Payload
@@ -352,13 +362,12 @@ func (r *Reader) tryChunk() (*Msg, int, error) {
 		switch fmtv {
 		case 0:
 			ns.ts = tsField
-			ns.delta = 0
+			ns.delta = tsField // spec 5.3.1.2.4: a following format-3 message repeats the format-0 timestamp as its delta
 		case 1, 2:
 			ns.delta = tsField
 			ns.ts = st.ts + tsField
 		case 3:
-			// repeats the previous delta (after a format 0: the spec says the delta is the timestamp
-			// itself; real encoders, and the one here, only use it after format 1/2)
+			// repeats the previous delta (after a format 0 the delta is that header's timestamp)
 			ns.ts = st.ts + st.delta
 		}
 		havePartial = 0
